@@ -557,8 +557,9 @@ def hier_contracts(tier):
     A = [ASSUME_POOL, ASSUME_EVENT, ASSUME_PICKLE,
          'Producer.generate / Consumer.check / nodes.reduplicate / '
          'write_smtlib_to_file / collect_information used through their '
-         'contracts (verified separately: C02/Producer.generate, '
-         'C01/Consumer.check, C13/native/reduplicate, C07)',
+         'contracts (verified separately: Producer.generate[any input], '
+         'Consumer.check, reduplicate[any input] + C13 tier S, '
+         'write_smtlib[*] in contracts/writers.py, C04/collect_information)',
          'inputs are abstract (uninterpreted sort Exprs with FLAT/ACC/AS)']
     return [
         Contract('hier.reduce', [HR], run_hier_reduce, setup=setup_hier,
